@@ -9,6 +9,7 @@ import (
 	"errors"
 	"fmt"
 	"strings"
+	"time"
 
 	"github.com/google/go-eventlog/ccel"
 	"github.com/google/go-eventlog/extract"
@@ -177,8 +178,8 @@ type c18Case struct {
 	f           world.QuoteFields // signed under a fresh PKI
 	log         []byte
 	table       []byte
-	mutMsg      func(q *pb.QuoteV4)    // after signing (breaks the signature unless it touches unsigned parts)
-	mutSc       func(sc *Scenario)     // verification options / world
+	mutMsg      func(q *pb.QuoteV4)       // after signing (breaks the signature unless it touches unsigned parts)
+	mutSc       func(sc *Scenario)        // verification options / world
 	policy      func(o *validate.Options) // on top of the default (nonce) policy
 	nilPolicy   bool
 	collateral  bool
@@ -280,7 +281,9 @@ func (e *c18Env) run(cs c18Case) {
 	{
 		// the table: probe with an empty log
 		var perr error
-		_ = safely(func() { _, perr = ccel.ReplayAndExtract(table, nil, register.RTMRBank{}, extract.Opts{Loader: extract.GRUB}) })
+		_ = safely(func() {
+			_, perr = ccel.ReplayAndExtract(table, nil, register.RTMRBank{}, extract.Opts{Loader: extract.GRUB})
+		})
 		if perr != nil && (strings.Contains(perr.Error(), "CCEL ACPI Table") || strings.Contains(perr.Error(), "only TDX")) {
 			tableOK = false
 		}
@@ -462,7 +465,9 @@ func C18(c *core.Ctx) {
 		{"quote signature bit flipped", func(q *pb.QuoteV4) { q.SignedData.Signature[5] ^= 1 }, nil, false},
 		{"TD body changed after signing (MRTD bit)", func(q *pb.QuoteV4) { q.TdQuoteBody.MrTd[0] ^= 1 }, nil, false},
 		{"RTMR changed after signing (to the value the log replays to is irrelevant)", func(q *pb.QuoteV4) { q.TdQuoteBody.Rtmrs[2][7] ^= 0x10 }, nil, false},
-		{"QE report signature bit flipped", func(q *pb.QuoteV4) { q.SignedData.CertificationData.QeReportCertificationData.QeReportSignature[9] ^= 2 }, nil, false},
+		{"QE report signature bit flipped", func(q *pb.QuoteV4) {
+			q.SignedData.CertificationData.QeReportCertificationData.QeReportSignature[9] ^= 2
+		}, nil, false},
 		{"QE report data no longer binds the attestation key", func(q *pb.QuoteV4) { q.SignedData.CertificationData.QeReportCertificationData.QeAuthData.Data[0] ^= 1 }, nil, false},
 		{"attestation key replaced", func(q *pb.QuoteV4) { q.SignedData.EcdsaAttestationKey[3] ^= 1 }, nil, false},
 		{"certificate chain is not PEM", func(q *pb.QuoteV4) {
@@ -530,6 +535,34 @@ func C18(c *core.Ctx) {
 		}
 	}
 
+	// ---- the genuine Intel-signed sample quote and log under pools that do not hold the Intel root ----
+	{
+		ref := time.Date(2025, time.January, 1, 0, 0, 0, 0, time.UTC)
+		other, _ := world.NewPKI(r, world.PKIOpts{Now: baseTime, Ext: world.RandomSGXExt(r)})
+		for _, v := range []struct {
+			name string
+			pool *x509.CertPool
+			want bool
+		}{{"nil pool (embedded Intel root)", nil, true}, {"pool with a generated root only", other.RootPool(), false}, {"empty pool", x509.NewCertPool(), false}} {
+			def := rtmr.TdxDefaultOpts(nonce)
+			vo := &verify.Options{TrustedRoots: v.pool, Now: &verify.TimeSet{PckCertChain: ref, TcbInfo: ref, QeIdentity: ref, PckCrl: ref, RootCaCrl: ref}}
+			opts := &rtmr.ParseTdxCcelOpts{Validation: def.Validation, Verification: vo, ExtractOpt: extract.Opts{Loader: extract.GRUB}}
+			var st *state.FirmwareLogState
+			var err error
+			pan := safely(func() { st, err = rtmr.ParseCcelWithTdQuote(logB, table, e.sample, opts) })
+			gt := ""
+			switch {
+			case pan != nil:
+				gt = fmt.Sprintf("ParseCcelWithTdQuote panicked: %v", pan)
+			case !v.want && st != nil:
+				gt = "a state was returned for the Intel-signed sample quote although the trusted pool does not hold the Intel root"
+			case v.want && (st == nil || err != nil):
+				gt = fmt.Sprintf("the genuine sample quote and log are refused under the embedded root: %v", err)
+			}
+			c.Add(&core.Case{Class: "sample-quote", Desc: "Intel sample quote and CCEL, " + v.name, SkipModel: true, Impl: core.Ls(), GT: gt, NonTrivial: true})
+		}
+	}
+
 	// ---- policy gate ----
 	b := e.sample.TdQuoteBody
 	wrong := func(v []byte) []byte { x := append([]byte{}, v...); x[len(x)-1] ^= 1; return x }
@@ -547,6 +580,15 @@ func C18(c *core.Ctx) {
 		{"MR_OWNER_CONFIG mismatch", func(o *validate.Options) { o.TdQuoteBodyOptions.MrOwnerConfig = wrong(b.MrOwnerConfig) }},
 		{"policy RTMRs mismatch", func(o *validate.Options) {
 			o.TdQuoteBodyOptions.Rtmrs = [][]byte{b.Rtmrs[0], wrong(b.Rtmrs[1]), b.Rtmrs[2], b.Rtmrs[3]}
+		}},
+		{"policy RTMRs partially pinned: (unset, off, unset, unset)", func(o *validate.Options) {
+			o.TdQuoteBodyOptions.Rtmrs = [][]byte{nil, wrong(b.Rtmrs[1]), nil, nil}
+		}},
+		{"policy RTMRs partially pinned: (match, empty, off, unset)", func(o *validate.Options) {
+			o.TdQuoteBodyOptions.Rtmrs = [][]byte{b.Rtmrs[0], {}, wrong(b.Rtmrs[2]), nil}
+		}},
+		{"policy RTMRs partially pinned: (unset, unset, unset, off)", func(o *validate.Options) {
+			o.TdQuoteBodyOptions.Rtmrs = [][]byte{nil, nil, nil, wrong(b.Rtmrs[3])}
 		}},
 		{"AnyMrTd without the quote's MR_TD", func(o *validate.Options) { o.TdQuoteBodyOptions.AnyMrTd = [][]byte{wrong(b.MrTd), make([]byte, 48)} }},
 		{"minimum TEE_TCB_SVN above the quote's", func(o *validate.Options) { o.TdQuoteBodyOptions.MinimumTeeTcbSvn = bytes.Repeat([]byte{0xff}, 16) }},
